@@ -31,7 +31,10 @@ type harnessSpec struct {
 	Tier     string // quick | thorough
 	Opts     map[string]string
 	Validate bool // ZZV_ translator-validation harness (concrete)
+	Shard    string
 }
+
+func (h *harnessSpec) Name() string { return h.Func + h.Shard }
 
 var funcRe = regexp.MustCompile(`^func (ZZV?_[A-Za-z0-9_]+)\(\)`)
 
@@ -206,6 +209,7 @@ func cmdCheck(args []string) int {
 	if v := os.Getenv("VERIF_SEED"); v != "" {
 		seed, _ = strconv.Atoi(v)
 	}
+	curTier = *tier
 	t0 := time.Now()
 	all, err := scanHarnesses()
 	if err != nil {
@@ -228,6 +232,28 @@ func cmdCheck(args []string) int {
 	if len(specs) == 0 {
 		fmt.Fprintf(os.Stderr, "no harness for property %s\n", id)
 		return 2
+	}
+	{
+		var exp []*harnessSpec
+		for _, h := range specs {
+			ns, _ := strconv.Atoi(h.Opts["shards"])
+			if ns <= 1 {
+				exp = append(exp, h)
+				continue
+			}
+			for i := 0; i < ns; i++ {
+				c := *h
+				c.Opts = map[string]string{}
+				for k, v := range h.Opts {
+					c.Opts[k] = v
+				}
+				c.Opts["p.shard"] = strconv.Itoa(i)
+				c.Opts["p.nshards"] = strconv.Itoa(ns)
+				c.Shard = fmt.Sprintf("#%d", i)
+				exp = append(exp, &c)
+			}
+		}
+		specs = exp
 	}
 	known, err := loadKnown()
 	if err != nil {
@@ -321,7 +347,7 @@ func cmdCheck(args []string) int {
 			solverTime += s.t.Seconds()
 		}
 		for k, v := range st.AssertReached {
-			assertSites[r.Spec.Func+":"+k] = v
+			assertSites[r.Spec.Name()+":"+k] = v
 		}
 		for _, f := range r.Funcs {
 			if !seenFn[f.Name] {
@@ -329,8 +355,8 @@ func cmdCheck(args []string) int {
 				funcs = append(funcs, f)
 			}
 		}
-		twins[r.Spec.Func] = r.TwinNote
-		bounds[r.Spec.Func] = map[string]interface{}{"unwind": e.Opt.Unwind, "params": e.Opt.Params, "paths": st.Paths, "complete": r.Complete}
+		twins[r.Spec.Name()] = r.TwinNote
+		bounds[r.Spec.Name()] = map[string]interface{}{"unwind": e.Opt.Unwind, "params": e.Opt.Params, "paths": st.Paths, "complete": r.Complete}
 		for _, s := range st.Samples {
 			if len(samples) < 12 {
 				samples = append(samples, s)
@@ -365,7 +391,7 @@ func cmdCheck(args []string) int {
 			case *noReplay || verdict == "reproduced":
 				violations++
 				fmt.Printf("VIOLATION property=%s replay=%s\n", id, path)
-				fmt.Printf("  harness=%s kind=%s name=%q site=%s\n", r.Spec.Func, f.Kind, f.Name, f.Site)
+				fmt.Printf("  harness=%s kind=%s name=%q site=%s\n", r.Spec.Name(), f.Kind, f.Name, f.Site)
 				exit = 1
 			default:
 				broken = append(broken, fmt.Sprintf("%s: SPURIOUS counterexample (%s): %s %q @ %s replay=%s", r.Spec.Func, verdict, f.Kind, f.Name, f.Site, path))
@@ -541,8 +567,10 @@ type replayFile struct {
 	Params   map[string]string `json:"params,omitempty"`
 }
 
+var curTier = "quick"
+
 func writeReplayFile(id string, h *harnessSpec, f *sx.Finding) string {
-	rf := replayFile{Property: id, Pkg: h.RelDir, Func: h.Func, Expect: *f, Inputs: f.Inputs, Params: h.options(envOr("VERIF_TIER", "quick")).Params}
+	rf := replayFile{Property: id, Pkg: h.RelDir, Func: h.Func, Expect: *f, Inputs: f.Inputs, Params: h.options(curTier).Params}
 	b, _ := json.MarshalIndent(rf, "", " ")
 	sum := sha256.Sum256(b)
 	dir := filepath.Join(verifDir, "replays")
